@@ -430,6 +430,31 @@ func ruleC06R5(c *Ctx) {
 		c.check(nameOK, "C06.R5", mk, "the file written is .id", site.Pos(), "filepath.Join(path, \".id\")", "another file name")
 	}
 	c.floor("C06.R5", "WriteFile calls in makeBufferQueueDir", n, 1)
+	// the directory name: the sanitised id is not injective ('/' and '_' meet), the hash suffix is what keeps two ids apart,
+	// so the hash must be taken of the id itself, never of something that passed the sanitiser
+	nHash := 0
+	for _, fn := range c.P.universe {
+		if relPkg(fnPkgPath(fn)) != "buffer/hybridbuffer" {
+			continue
+		}
+		for _, site := range callsIn(fn) {
+			f := site.Common().StaticCallee()
+			if f == nil || !isAnchor(f, "util.MD5ToHexdigest") {
+				continue
+			}
+			nHash++
+			arg := site.Common().Args[0]
+			viaSanitiser := mentions(arg, func(v ssa.Value) bool {
+				cl, ok := v.(*ssa.Call)
+				return ok && cl.Common().StaticCallee() != nil && isAnchor(cl.Common().StaticCallee(), "buffer/hybridbuffer.sanitizeDirName")
+			})
+			p, isParam := strip(arg).(*ssa.Parameter)
+			c.check(!viaSanitiser && isParam && isStringType(p.Type()), "C06.R5", fn, "the directory hash is taken of the unsanitised buffer id", site.Pos(),
+				"MD5ToHexdigest(<the id parameter>)",
+				"the hash suffix of the queue directory is not computed from the id itself (it passed sanitizeDirName or is another value): two ids that the sanitiser maps to one name share one directory, one .id file and each other's chunks")
+		}
+	}
+	c.floor("C06.R5", "directory hash computations", nHash, 1)
 	// recovery appends what it read
 	nApp := 0
 	eachInstr(ls, func(in ssa.Instruction) {
